@@ -49,6 +49,14 @@ def parse_cert(c: bytes):
             'pre': c[:41], 'sig': c[41:]}
 
 
+class Cfg:
+    """the slack threshold the verifier configured and how: 'default' (60,
+    nothing configured), 'global' (functions.flags['ts_threshold']), 'per-run'
+    (additional_flags of run_script over witness + lock)"""
+    slack = 60
+    mode = 'default'
+
+
 def model_chain(K, certs_rootfirst, final_sig, fields, allowed, t, now,
                 chain_lock=True):
     """predicate of the statement"""
@@ -64,7 +72,7 @@ def model_chain(K, certs_rootfirst, final_sig, fields, allowed, t, now,
             return False
         if not (p['b'] <= t < p['e']):
             return False
-        if not (t - now < 60):
+        if not (t - now < Cfg.slack):
             return False
         if chain_lock and i < n - 1 and p['can'] == 0:
             return False
@@ -81,6 +89,14 @@ def auth(scripts, cache):
     functions = env.mods()[0]
     try:
         ss = [bytes(s) for s in scripts]
+        if Cfg.mode == 'per-run':
+            # the flags of ONE run: run_script takes them (witness and lock
+            # in one script; the witnesses here only push data)
+            _, stack, _ = functions.run_script(
+                b''.join(ss), dict(cache),
+                additional_flags={'ts_threshold': Cfg.slack},
+                **env.roomy_limits(*ss))
+            return list(stack.deque) == [b'\xff']
         return functions.run_auth_scripts(ss, dict(cache),
                                           **env.roomy_limits(*ss))
     except BaseException as e:
@@ -120,7 +136,9 @@ def judge(ctx, name, lock, wit, K, certs_rf, fields, allowed, t, now,
                                     'witness': bytes(wit), 'K': K,
                                     'certs': list(certs_rf), 'fields': fields,
                                     'allowed': allowed, 't': t, 'now': now,
-                                    'chain_lock': chain_lock}, want,
+                                    'chain_lock': chain_lock,
+                                    'slack': Cfg.slack, 'mode': Cfg.mode},
+                      want,
                       repr(got)[:80])
         return
     if nontrivial:
@@ -177,7 +195,9 @@ def scenario(ctx, rng, j):
         c = t_.make_delegate_key_cert(seeds[i], pks[i + 1], windows[i][0],
                                       windows[i][1], cans[i])
         certs.append(c.pack())
-    now = rng.choice((t, t, t, t - 59, t - 60, t - 61, t + 100, t - 10**6))
+    sl = Cfg.slack
+    now = rng.choice((t, t, t, t - sl + 1, t - sl, t - sl - 1, t + 100,
+                      t - 10**6, t - 59, t - 60, t - 61))
     if small_t:
         now = rng.choice((t, t + 100, T0))
     chain_lock = t_.make_delegate_key_chain_lock(pks[0], a_hex)
@@ -337,10 +357,21 @@ def run_shard(spec, ctx):
         if ext:
             import tapescript
             tapescript.add_signature_extension(env.rewriting_extension)
+        # a third of the scenarios under a slack threshold the verifier
+        # configured, for the process or for the single run
+        Cfg.slack, Cfg.mode = 60, 'default'
+        if j % 3 == 2:
+            Cfg.slack = (5, 10, 600, 100000)[(j // 3) % 4]
+            Cfg.mode = ('global', 'per-run')[(j // 12) % 2]
+        ctx.tab('slack_configuration', f'{Cfg.mode}:{Cfg.slack}')
+        gf = dict(env.REGISTERS_OFF if off else {})
+        if Cfg.mode == 'global':
+            gf['ts_threshold'] = Cfg.slack
         try:
-            with env.global_flags(env.REGISTERS_OFF if off else {}):
+            with env.global_flags(gf):
                 scenario(ctx, ctx.rng(j), j)
         finally:
+            Cfg.slack, Cfg.mode = 60, 'default'
             if ext:
                 tapescript.reset_signature_extensions()
     judge_cert_roundtrip(ctx, ctx.rng('certs'))
@@ -358,6 +389,10 @@ def replay(case, ctx):
     if case.get('name') in ('cert', 'field-change'):
         judge_cert_roundtrip(ctx, ctx.rng('replay'))
         return
-    judge(ctx, case['name'], case['lock'], case['witness'], case['K'],
-          case['certs'], case['fields'], case['allowed'], case['t'],
-          case['now'], case['chain_lock'], True)
+    Cfg.slack, Cfg.mode = case.get('slack', 60), case.get('mode', 'default')
+    gf = {'ts_threshold': Cfg.slack} if Cfg.mode == 'global' else {}
+    with env.global_flags(gf):
+        judge(ctx, case['name'], case['lock'], case['witness'], case['K'],
+              case['certs'], case['fields'], case['allowed'], case['t'],
+              case['now'], case['chain_lock'], True)
+    Cfg.slack, Cfg.mode = 60, 'default'
